@@ -127,6 +127,7 @@ int main ()
       default: throw ProtocolError ("n"); } };
   OP("jac.real") { unsigned n=A.nat();
     switch (n) { case 2: jacobi_real<2>(A,O,false); break; case 3: jacobi_real<3>(A,O,false); break; case 4: jacobi_real<4>(A,O,false); break;
+      case 5: jacobi_real<5>(A,O,false); break; case 6: jacobi_real<6>(A,O,false); break; case 7: jacobi_real<7>(A,O,false); break; case 8: jacobi_real<8>(A,O,false); break;
       default: throw ProtocolError ("n"); } };
 
   return run_stream (ops);
